@@ -619,6 +619,24 @@ func blockedAddresses(c *Ctx, must []string, free ...string) {
 		isUpd := func(in ssa.Instruction) bool { _, ok := in.(*ssa.MapUpdate); return ok }
 		missed := ir.AfterReachesBackEdgeWithoutCut(f, next, isUpd, skip)
 		r.Require(len(missed) == 0, "A5.blocked-addresses", "every-key-inserted", pos(c, next), "every module account of maccPerms is inserted into the blocked list, except those compared with a constant module address", "an iteration can finish without inserting its key")
+	} else if names, at := blockedFromTable(c, f, updates); len(names) > 0 {
+		// the list written out: a package-level []string of module names that nothing modifies, every element inserted. What it
+		// leaves out of maccPerms is what is exempt
+		rangesAll = true
+		listed := map[string]bool{}
+		for _, nm := range names {
+			listed[nm] = true
+		}
+		if mp, _, err := MaccPerms(c); err == nil {
+			for acct := range mp {
+				if !listed[acct] {
+					deleted[acct] = true
+				}
+			}
+		} else {
+			deleted["?"] = true
+		}
+		r.OK("A5.blocked-addresses", "every-key-inserted", pos(c, at), "every name of the constant list of blocked module accounts is inserted")
 	} else {
 		r.Require(false, "A5.blocked-addresses", "every-key-inserted", w.Pos(f.Pos()), "the blocked list is filled by a loop over maccPerms", "no range-over-maccPerms loop with a map insert found")
 	}
@@ -1022,4 +1040,26 @@ func cancelCoin(e *ir.Expr) *ir.Expr {
 		}
 	}
 	return e
+}
+
+// blockedFromTable: the blocked-address map is filled by a loop over a constant package-level list of module names, each
+// element inserted on every turn; returns the names and the insert.
+func blockedFromTable(c *Ctx, f *ssa.Function, updates []*ssa.MapUpdate) ([]string, ssa.Instruction) {
+	for _, u := range updates {
+		hdr := ir.EnclosingLoopHeader(f, u)
+		if hdr == nil {
+			continue
+		}
+		names := tableModules(c, c.W.Expand(c.W.ExprOf(u.Key), 2))
+		if len(names) == 0 {
+			continue
+		}
+		// unconditional within the loop: no way round the insert from the top of the loop back to it
+		isU := func(in ssa.Instruction) bool { return in == ssa.Instruction(u) }
+		if len(ir.AfterReachesBackEdgeWithout(f, hdr.Instrs[0], isU)) > 0 {
+			continue
+		}
+		return names, u
+	}
+	return nil, nil
 }
